@@ -45,8 +45,9 @@ PYDANTIC_EDITS = ["UpdateFromNames", "UpdateFromTypes", "UpdateFromData", "Restr
 INVARIANTS = ["TypeOK", "WellFormed"]
 
 
-def cfg(cls, ops, *, atoms, dkinds=("iarr",), nslots=1, max_elems=2, max_atoms=2, depth=2, probe=False):
-    s = (f'CONSTANTS Class = "{cls}"\n Names = {{"a", "b", "c"}}\n TAtoms = {to_tla(set(atoms))}\n'
+def cfg(cls, ops, *, atoms, dkinds=("iarr",), nslots=1, max_elems=2, max_atoms=2, depth=2, probe=False,
+        names=("a", "b", "c")):
+    s = (f'CONSTANTS Class = "{cls}"\n Names = {to_tla(set(names))}\n TAtoms = {to_tla(set(atoms))}\n'
          f" DKinds = {to_tla(set(dkinds))}\n Ops = {to_tla(set(ops))}\n NSlots = {nslots}\n"
          f" MaxElems = {max_elems}\n MaxAtoms = {max_atoms}\n MaxDepth = {depth}\n")
     if probe:
@@ -57,6 +58,15 @@ def cfg(cls, ops, *, atoms, dkinds=("iarr",), nslots=1, max_elems=2, max_atoms=2
     return s + "PROPERTY QueriesPure\nPROPERTY CopyEqual\n"
 
 
+def copy_defaults(thorough, queries):
+    """Copy; the two grammars diverge (delete / new element / rename / namespace in either of them); a default is
+    then written (or must be refused) in either of them: the defaults of a copy follow the elements of the copy.
+    Histories of 4 edits are needed (element, [default], copy, diverging edit, default): a small alphabet."""
+    ops = ["UpdateFromNames", "Copy", "Delete", "Rename", "AddNamespace", "SetDefault", "RejectDefault"] + queries
+    return ("copy-defaults", ops, dict(atoms=["Int"], nslots=2, depth=4, max_elems=2,
+                                       names=("a", "b", "c") if thorough else ("a", "b")), ops)
+
+
 def configs(ck: Check, cls: str):
     """(name, ops, cfg keywords, require_actions).  Several focused alphabets instead of one product."""
     js = cls == "json"
@@ -65,10 +75,11 @@ def configs(ck: Check, cls: str):
         # the shared operations: an element is required exactly when its field has no default, i.e. always for
         # the elements these operations create; required_names / defaults edits do not reach the model
         ops = PYDANTIC_EDITS + ["RejectRestrict", "RejectDelete", "Validate", "Repr"]
-        cops = ["UpdateFromNames", "UpdateFromTypes", "Copy", "Delete", "Rename", "Validate"]
+        cops = ["UpdateFromNames", "UpdateFromTypes", "Copy", "Delete", "Validate"] + (["Rename"] if t else [])
         return [("types", ops, dict(atoms=["Int", "Num", "Str"] if t else ["Int", "Num"], dkinds=("iarr", "str") if t else ("iarr",),
                                     depth=3 if t else 2, max_elems=3 if t else 2), ops),
-                ("copy", cops, dict(atoms=["Int"], nslots=2, depth=4 if t else 3, max_elems=2), cops)]
+                ("copy", cops, dict(atoms=["Int"], nslots=2, depth=4 if t else 3, max_elems=2), cops),
+                copy_defaults(t, [])]
     q = QUERIES_JSON if js else QUERIES_SIMPLE
     q1 = q if t else [x for x in q if x != "Repr"]
     out = []
@@ -91,6 +102,7 @@ def configs(ck: Check, cls: str):
     if t:
         ops += ["Require", "SetDefault", "Rename"] + (["ToJson"] if js else [])
     out.append(("copy", ops, dict(atoms=["Int"], nslots=2, depth=4 if t else 3, max_elems=2), ops))
+    out.append(copy_defaults(t, ["Validate"] if t else []))
     # 4. schemas and files (JSON only)
     if js:
         ops = ["UpdateFromNames", "UpdateFromTypes", "UpdateFromSchema", "Reload", "Unrequire", "Pickle",
